@@ -21,7 +21,7 @@ def indent_lines(text: str, prefix: str) -> str:
     Unicode line boundary (U+0085, U+2028, form feed, ...) and so inserts the prefix in
     the middle of names and texts that contain one.
     """
-    return '\n'.join(prefix + line if line.strip() else line for line in text.split('\n'))
+    return '\n'.join(prefix + line if line.strip(' \t') else line for line in text.split('\n'))
 
 
 def remove_bom(source: str) -> str:
@@ -48,12 +48,12 @@ def remove_indentation(source: str) -> str:
     if not source:
         return source
 
-    pattern = re.compile(r'^\s*')
+    pattern = re.compile(r'^[ \t]*')
 
     lines = source.split('\n')
     spaces = []
     for line in lines:
-        if line and not line.isspace():
+        if line.strip(' \t'):
             indent_match = pattern.search(line)
             if indent_match is not None:  # this is just for you mypy
                 spaces.append(len(indent_match[0]))
